@@ -64,6 +64,9 @@ fn check(args: &ast::Arguments, text: &str) {
 
 fuzz_target!(|data: &[u8]| {
     let Some(inp) = common::decode(data) else { return };
+    if common::too_deep(&inp.text) {
+        return;
+    }
     let Ok(m) = parse(&inp.text, inp.mode, "<fuzz>") else { return };
     let mut c = Collect::default();
     match m {
